@@ -119,6 +119,12 @@ def build(rng):
         t_start = t + (rng.choice((2.0 ** -6, 0.25, 1.0)) + 2.0 ** -12 if how == "later" else 0.0)
         restarts.append(dict(stop=t, rank=rank, how=how, start=t_start, placement=pl))
         t_prev = t_start
+    if rng.random() < 0.25:
+        # long after the last round of the last start the application calls start() once more - the protocol-level one, without
+        # a stop in between: the earlier find task has ended, so this is a start like any other
+        t_again = t_prev + v + sum(base * 2 ** i for i in range(reps)) + 0.75 + 2.0 ** -11
+        restarts.append(dict(stop=t_again, rank=BEFORE, how="again", start=t_again, placement="after-the-rounds"))
+        t_prev = t_again
     # the filters are registered before start(), or right after it in the same loop iteration (no await in between, as
     # tools/find-subscribe.py does): the client has not taken a step yet, so both orders mean the same
     # (an offer that arrives while nothing is watched is not recorded, so only scenarios without such offers qualify)
@@ -202,7 +208,9 @@ def judge(ctx, sc, seed, replay):
     for e in sc["events"]:
         h.at(e[0], prot.datagram_received, e[6], SOURCES[e[2]], False, rank=e[1])
     for r in sc.get("restarts", ()):
-        if r["how"] == "same":
+        if r["how"] == "again":
+            h.at(r["start"], prot.start, rank=r["rank"])
+        elif r["how"] == "same":
             h.at(r["stop"], lambda: (prot.discovery.stop(), prot.discovery.start()), rank=r["rank"])
         else:
             h.at(r["stop"], prot.discovery.stop, rank=r["rank"])
